@@ -114,7 +114,7 @@ fn npushw(l: &[i16]) -> Vec<u8> {
 }
 
 /// run an op sequence on the real ValueStack; returns (observations, final len, final store, panic msg)
-fn run_vs(cap: usize, ped: bool, ops: &[VOp]) -> (Vec<(i64, i64, i64)>, usize, Vec<i32>, Vec<i32>, Option<String>) {
+fn run_vs(cap: usize, ped: bool, ops: &[VOp]) -> (Vec<(i64, i128, i64)>, usize, Vec<i32>, Vec<i32>, Option<String>) {
     let mut store: Vec<i32> = (0..cap as i32).map(|i| 1000 + i).collect();
     let init = store.clone();
     let mut obs = vec![];
@@ -122,7 +122,10 @@ fn run_vs(cap: usize, ped: bool, ops: &[VOp]) -> (Vec<(i64, i64, i64)>, usize, V
     let r = catch(AssertUnwindSafe(|| {
         let mut vs = ValueStack::new(&mut store, ped);
         for o in ops {
-            let ob: (i64, i64) = match o {
+            let ob: (i64, i128) = match o {
+                VOp::PopUsize => vs.pop_usize().map(|v| (0i64, v as i128)).unwrap_or_else(|e| { let x = err_obs(&e); (x.0, x.1 as i128) }),
+                VOp::PopCount => vs.pop_count_checked().map(|v| (0i64, v as i128)).unwrap_or_else(|e| { let x = err_obs(&e); (x.0, x.1 as i128) }),
+                other => { let x: (i64, i64) = match other {
                 VOp::Push(v) => vs.push(*v).map(|_| (0, 0)).unwrap_or_else(|e| err_obs(&e)),
                 VOp::PushList(l) => {
                     let bytes = npushw(l);
@@ -134,8 +137,7 @@ fn run_vs(cap: usize, ped: bool, ops: &[VOp]) -> (Vec<(i64, i64, i64)>, usize, V
                     None => (4, 0),
                 },
                 VOp::Pop => vs.pop().map(|v| (0, v as i64)).unwrap_or_else(|e| err_obs(&e)),
-                VOp::PopUsize => vs.pop_usize().map(|v| (0, v as i64)).unwrap_or_else(|e| err_obs(&e)),
-                VOp::PopCount => vs.pop_count_checked().map(|v| (0, v as i64)).unwrap_or_else(|e| err_obs(&e)),
+                VOp::PopUsize | VOp::PopCount => unreachable!(),
                 VOp::Unary(k) => vs.apply_unary(|a| ufun(*k, a)).map(|_| (0, 0)).unwrap_or_else(|e| err_obs(&e)),
                 VOp::Binary(k) => vs.apply_binary(|a, b| bfun(*k, a, b)).map(|_| (0, 0)).unwrap_or_else(|e| err_obs(&e)),
                 VOp::Clear => {
@@ -147,6 +149,7 @@ fn run_vs(cap: usize, ped: bool, ops: &[VOp]) -> (Vec<(i64, i64, i64)>, usize, V
                 VOp::CopyIndex => vs.copy_index().map(|_| (0, 0)).unwrap_or_else(|e| err_obs(&e)),
                 VOp::MoveIndex => vs.move_index().map(|_| (0, 0)).unwrap_or_else(|e| err_obs(&e)),
                 VOp::Roll => vs.roll().map(|_| (0, 0)).unwrap_or_else(|e| err_obs(&e)),
+                }; (x.0, x.1 as i128) }
             };
             obs.push((ob.0, ob.1, vs.len() as i64));
             flen = vs.len();
@@ -242,7 +245,7 @@ fn part_a(rng: &mut Rng, thorough: bool, st: &mut Stats, cw: &mut CaseWriter) {
                     cbool(ped),
                     czlist(init.iter().map(|v| *v as i128)),
                     clist(ops.iter(), vop_term),
-                    clist(obs.iter(), |o| format!("({}, {}, {})", cz(o.0 as i128), cz(o.1 as i128), cz(o.2 as i128))),
+                    clist(obs.iter(), |o| format!("({}, {}, {})", cz(o.0 as i128), cz(o.1), cz(o.2 as i128))),
                     flen,
                     czlist(store.iter().map(|v| *v as i128))
                 ));
